@@ -127,4 +127,34 @@ def rule_snapshot(ctx):
     ctx.floor('K3', 'rename sites in collector::rrdp', n, 1)
 
 
-RULES = [rule_state_last, rule_object_ops, rule_snapshot]
+ARCHIVE_ORDER = [
+    # (body, first, then, why)
+    ('utils::archive::Archive::publish_replace', 'utils::archive::Archive::unlink_empty', 'utils::archive::Archive::write_object',
+     'the reused slot leaves the free list BEFORE it is overwritten (else a kill in between leaves a free-list entry whose header is the '
+     'new object, pointing into a live bucket chain: later publishes overwrite live objects)'),
+    ('utils::archive::Archive::publish_replace', 'utils::archive::Archive::write_object', 'utils::archive::Archive::set_index',
+     'an object is linked into its hash bucket only after it has been written'),
+    ('utils::archive::Archive::publish_append', 'utils::archive::Archive::write_object', 'utils::archive::Archive::set_index',
+     'an object is linked into its hash bucket only after it has been written'),
+    ('utils::archive::Archive::delete_found', 're:utils::archive::(ObjectHeader::update_next|Archive::set_index)$', 'utils::archive::Archive::create_empty',
+     'an object is unlinked from its bucket chain before its space is put on the free list'),
+]
+
+
+def rule_archive_write_order(ctx):
+    """Crash ordering inside the archive primitives (what a kill between two writes leaves behind must be safe)."""
+    for bn, first, then, why in ARCHIVE_ORDER:
+        b = ctx.body(bn)
+        fs = b.calls(first)
+        ts = b.calls(then)
+        ctx.floor('K2', '%s: %s / %s' % (bn.split('::')[-1], first.split('::')[-1].rstrip('$)'), then.split('::')[-1]), min(len(fs), len(ts)), 1)
+        for t in ts:
+            nodes = {x.bb for x in fs}
+            pth = b.path_avoiding(t.bb, avoid_nodes=nodes) if nodes else [0]
+            back = [x for x in fs if b.can_reach(t.bb, x.bb) and x.bb != t.bb]
+            ctx.check(pth is None and not back, 'K2', '%s:%s<%s' % (bn.split('::')[-1], first.split('::')[-1].rstrip('$)'), then.split('::')[-1]),
+                      '%s: %s' % (bn.split('::')[-1], why.split(' (')[0]),
+                      '%s calls %s before %s (or not on every path): %s' % (bn, then.split('::')[-1], first.split('::')[-1], why), loc=t.loc())
+
+
+RULES = [rule_archive_write_order, rule_state_last, rule_object_ops, rule_snapshot]
